@@ -1,5 +1,8 @@
 """C09 — top-N, sorting and paging return the right slice of the full ranking."""
-GEN = True             # go/extract/c09.go: SortOrder.Copy deep/shallow, Collector() copy+reverse shape, Reverse's flips
+GEN = True             # go/extract/c09.go + c09tr.go: SortOrder.Compare / sortFirstLast.Value / Reverse TRANSLATED to Lean defs (bridged to
+                       # cmpMatch / missingValue / SortKey.reverse for all inputs), statement tables (SortBy, MissingTextValueSource.Value, Compute,
+                       # every use of the comparator's result in package collector), SortOrder.Copy deep/shallow, Collector() copy+reverse shape
+EXTRACT_DEPS = ("c01.go",)   # the statement walker
 STATELESS = False      # `case` blocks: a corpus / match stream, then reference lists, sort variables, requests, chains
 REQUIRED_BRANCHES = [
     # paths of collectSingle
@@ -29,7 +32,10 @@ ASSUMPTIONS = [
 TRUSTED = [
     "hand-written model Bluge.TopN (comparator, slice store, collector loop, Collector() aliasing) tied by the "
     "correspondence stream `topn` on real in-memory indexes and on synthetic match streams",
-    "extractor go/extract/c09.go (three coarse facts about SortOrder.Copy / Reverse / TopNSearch.Collector)",
+    "extractor go/extract/c09.go (three coarse facts about SortOrder.Copy / Reverse / TopNSearch.Collector; statement tables) and the "
+    "translator go/extract/c09tr.go (SortOrder.Compare, sortFirstLast.Value, the element update of Reverse, highTerm/lowTerm rendered "
+    "token by token into Lean; refuses anything outside its subset); the bindings Bluge/C09/GoBind.lean (bytes.Compare as an int, "
+    "*bool as Option Bool)",
 ]
 SEARCH_SCALE = 3
 
